@@ -15,7 +15,7 @@ IDKIND = {"ModuleDeclarationWildcard": "ModuleIdentifier", "InterfaceDeclaration
           "VariableDeclAssignment": "VariableIdentifier", "TypeIdentifier": "TypeIdentifier", "FunctionDeclaration": "FunctionIdentifier",
           "TaskDeclaration": "TaskIdentifier", "ModuleInstantiation": "ModuleIdentifier", "HierarchicalInstance": "InstanceIdentifier",
           "NamedPortConnection": "PortIdentifier", "NamedParameterAssignment": "ParameterIdentifier", "GenvarDeclaration": "GenvarIdentifier",
-          "ModportItem": "ModportIdentifier"}
+          "ModportItem": "ModportIdentifier", "InterfaceDeclarationNonansi": "InterfaceIdentifier", "ProgramDeclarationNonansi": "ProgramIdentifier"}
 
 
 def grammar():
